@@ -101,6 +101,9 @@ type Opts struct {
 	// EmbedIDHeader puts a line that looks like the server's ID header into a body (as a
 	// forwarded message that once passed through gluon would carry).
 	EmbedIDHeader bool
+	// BadEncoding declares base64 for a text leaf whose body is not base64 (illegal
+	// characters, missing padding): accepted by the server, but its content cannot be decoded.
+	BadEncoding bool
 }
 
 // Build makes a message with a random MIME tree of at most MaxDepth levels.
@@ -157,11 +160,17 @@ func (b *builder) entityBody(p *Part, path []int, depth int, o Opts, top bool) {
 		} else {
 			p.Type = "text/plain"
 		}
-		if b.r.P(1, 4) {
+		bad := o.BadEncoding && (top || b.r.P(1, 2))
+		if bad {
+			b.field(p, "Content-Transfer-Encoding", "base64")
+		} else if b.r.P(1, 4) {
 			b.field(p, "Content-Transfer-Encoding", "8bit")
 		}
 		b.buf.WriteString("\r\n")
 		p.HeaderEnd = b.buf.Len()
+		if bad {
+			b.buf.WriteString([]string{"QUJD*REVG\r\n", "QUJDR\r\n", "not base64 at all!\r\n"}[b.r.Intn(3)])
+		}
 		n := b.r.Intn(6)
 		if o.BigBody > 0 && b.r.P(1, 2) {
 			n = o.BigBody / 40
